@@ -183,5 +183,6 @@ def discharge(obls, timeout_s=20):
 def shutdown():
     global _POOL
     if _POOL is not None:
-        _POOL.shutdown(wait=False, cancel_futures=True)
+        # wait=True: a worker that is still being spawned when the parent exits dies with a traceback on stderr (harmless but noisy under load)
+        _POOL.shutdown(wait=True, cancel_futures=True)
         _POOL = None
